@@ -119,6 +119,28 @@ def read_state(state) -> dict:
     return {"s": int(st.s), "t": int(st.t), "tl": tl}
 
 
+def same_space(a, b) -> bool:
+    """Structural equality of two lerax spaces, without relying on their own __eq__."""
+    if type(a) is not type(b):
+        return False
+    if hasattr(a, "spaces"):
+        sa, sb = a.spaces, b.spaces
+        if isinstance(sa, dict):
+            return list(sa) == list(sb) and all(same_space(sa[k], sb[k]) for k in sa)
+        return len(sa) == len(sb) and all(same_space(x, y) for x, y in zip(sa, sb))
+    la, lb = jax.tree.leaves(a), jax.tree.leaves(b)
+    if tuple(getattr(a, "shape", ()) or ()) != tuple(getattr(b, "shape", ()) or ()) or len(la) != len(lb):
+        return False
+    for x, y in zip(la, lb):
+        x, y = np.asarray(x), np.asarray(y)
+        if x.shape != y.shape or not np.array_equal(x, y):
+            return False
+    for attr in ("n", "nvec", "ns"):
+        if hasattr(a, attr) and not np.array_equal(np.asarray(getattr(a, attr)), np.asarray(getattr(b, attr))):
+            return False
+    return True
+
+
 class Runner:
     def __init__(self, cls: dict):
         self.cls = cls
@@ -321,6 +343,17 @@ class Runner:
         limits = list(plan["knobs"]["limits"])
         mdp = RefMDP(self.kind, self.comps, plan["world"])
         exec_mode = plan["knobs"].get("exec_mode", "jit")
+        if "C12" in props and exec_mode != "jit":
+            # the stack exactly AS CONSTRUCTED (no pytree surgery yet): eager call vs the same object passed through a jit boundary,
+            # which re-builds its pytree (static structure such as the order of a Dict space's entries must survive that)
+            fn = lambda e, k: (lambda st: (st, e.observation(st, key=k), e.action_mask(st, key=k)))(e.initial(key=k))  # noqa: E731
+            if getattr(self, "_jfun", None) is None:
+                self._jfun = eqx.filter_jit(fn)
+            k_ab = jr.key(int(plan["ops"][0].get("key", 0)) if plan["ops"] else 0)
+            with jax.disable_jit():
+                eager_out = fn(self.env0, k_ab)  # functional API: no library-side jit wrapper in between
+            self._mode_equal(res, "as_built_eager_vs_jit", jax.device_get(eager_out), jax.device_get(self._jfun(self.env0, k_ab)))
+            res.probes["mode_as_built_ops"] += 1
         state = None
         hist: list = []  # earlier (state, action, key) inputs of this run, for heterogeneous vmap batches
         cur = None  # host view of the current state
@@ -647,6 +680,24 @@ class Runner:
                     res.fail("C13", "space_advertised", "action_space_bounds", got=[np.asarray(sp.low).tolist(), np.asarray(sp.high).tolist()], expected=[lo, hi])
             else:
                 res.ok("C13", "space_advertised")
+        # a wrapper that does not declare a change of a space advertises exactly the space of what it wraps — level by level
+        lvl = env
+        while hasattr(lvl, "env"):
+            inner, wname = lvl.env, type(lvl).__name__
+            for what, changers in (("observation_space", ("ClipObservation", "RescaleObservation", "FlattenObservation", "TransformObservation")),
+                                   ("action_space", ("ClipAction", "RescaleAction", "TransformAction"))):
+                if wname in changers:
+                    continue
+                try:
+                    same = same_space(getattr(lvl, what), getattr(inner, what))
+                except Exception as exc:  # noqa: BLE001
+                    res.fail("C13", "space_advertised", f"{what}_raised", wrapper=wname, message=f"{type(exc).__name__}: {str(exc)[:160]}")
+                    continue
+                if not same:
+                    res.fail("C13", "space_advertised", f"pass_through_wrapper_changes_{what}", wrapper=wname, got=str(getattr(lvl, what))[:160], inner=str(getattr(inner, what))[:160])
+                else:
+                    res.ok("C13", "space_advertised")
+            lvl = inner
         # every documented wrapper can be constructed with documented arguments
         for name in DOCUMENTED:
             spec = {"RescaleAction": [name, -2.0, 2.0], "RescaleObservation": [name, 0.0, 1.0], "ClipReward": [name, -1.0, 1.0]}.get(name, [name])
